@@ -71,10 +71,31 @@ def coq_files():
     return sorted(out)
 
 
-def hygiene():
-    """fail closed on anything that would weaken the kernel's guarantee"""
+def dep_closure(targets):
+    """the .v files (relative to coq/) that the given .vo targets depend on, transitively, following
+    `From LV Require [Import|Export] A.B C.D.` and `Require [Import|Export] LV.A.B.`"""
+    todo = [t[:-1] if t.endswith('.vo') else t for t in targets]
+    seen = []
+    while todo:
+        f = todo.pop()
+        if f in seen or not os.path.exists(os.path.join(COQ, f)):
+            continue
+        seen.append(f)
+        txt = re.sub(r'\(\*.*?\*\)', '', open(os.path.join(COQ, f)).read(), flags=re.S)
+        for m in re.finditer(r'From\s+LV\s+Require\s+(?:Import\s+|Export\s+)?(.*?)\.(?:\s|$)', txt, flags=re.S):
+            for mod in m.group(1).split():
+                todo.append('theories/' + mod.replace('.', '/') + '.v')
+        for m in re.finditer(r'(?<!LV\s)Require\s+(?:Import\s+|Export\s+)?((?:LV\.[\w.]+?\s+)*LV\.[\w.]+?)\.(?:\s|$)', txt):
+            for mod in m.group(1).split():
+                todo.append('theories/' + mod[3:].replace('.', '/') + '.v')
+    return sorted(seen)
+
+
+def hygiene(targets=None):
+    """fail closed on anything that would weaken the kernel's guarantee; with targets: only the files the
+    targets depend on (each check is responsible for its own closure; --setup scans the whole tree)"""
     bad = []
-    for f in coq_files():
+    for f in (dep_closure(targets) if targets else coq_files()):
         txt = open(os.path.join(COQ, f)).read()
         txt_nc = re.sub(r'\(\*.*?\*\)', '', txt, flags=re.S)
         for m in FORBIDDEN.finditer(txt_nc):
